@@ -1,6 +1,6 @@
 """C04: blinding yields a transaction that verifies and that receivers can unblind (Blind.tla)."""
 import os
-from lib.common import tlc, tlc_must_pass, vh
+from lib.common import tlc, tlc_must_pass, vh, cached_emission
 
 LEVEL = "model_checking"
 
@@ -13,8 +13,9 @@ def model_and_gen(ck):
     ck.add_tlc(r, "blinding machine over all skeletons (inputs conf/explicit, seven issuance shapes, output modes full / value-only / asset-only, every arrangement of marked / unmarked / fee / "
                   "zero-value outputs), all factor choices in Z_5: BlindedVerifies, AllMarkedBlinded, TampersRejected")
     bl, ex = os.path.join(w, "blind.ndjson"), os.path.join(w, "explicit.ndjson")
-    r = tlc_must_pass(tlc("Gen_Blind", "Gen_Blind_quick.cfg" if q else "Gen_Blind_thorough.cfg", w,
-                          env={"GEN_EXPL_OUTS": 2 if q else 3, "OUT_BLIND": bl, "OUT_EXPL": ex}, workers=1, timeout=3000, xmx="24g"), "Blind gen")
+    # shared with C05; depends on the specification and the tier only
+    r = cached_emission(ck, "blind", "Gen_Blind", "Gen_Blind_quick.cfg" if q else "Gen_Blind_thorough.cfg", {"GEN_EXPL_OUTS": 2 if q else 3},
+                        {"OUT_BLIND": bl, "OUT_EXPL": ex}, ["Blind.tla", "MC_Blind.tla"], what="Blind gen")
     ck.add_tlc(r, "case emission")
     return bl, ex
 
